@@ -699,9 +699,20 @@ class PeerCase:
                 ch.close()
             else:
                 # accept and hold: closed when the client closes
-                while ch._read_raw(0.5) or not ch.eof:
-                    if d["aborted"] or ch.eof:
+                t_eof = None
+                while True:
+                    ch._read_raw(0.5)
+                    if d["aborted"] or ch.reset:
                         break
+                    if ch.eof:
+                        # (park: a server that keeps its end of the unused data connection open for a while after the
+                        # client has closed its own - the client must not wait for it)
+                        if not spec.get("park"):
+                            break
+                        t_eof = t_eof or time.time()
+                        if time.time() - t_eof > spec.get("park_s", 8.0) or self.stop:
+                            break
+                        time.sleep(0.05)
                 rec["eof"] = "reset" if ch.reset else "eof"
                 ch.close()
             # the client has closed the data connection: write what was held back (before the control thread, which
